@@ -70,7 +70,10 @@ impl Store {
 }
 pub trait Resolve {
     spec fn store(&self) -> Store;
-    fn resolve(&self, r: PlainRef) -> (res: Result<Primitive>) ensures res == self.store().get(r);
+    // `res == store.get(r)`; and resolve never hands out a Reference (it follows reference-valued objects within its
+    // depth budget): proved in units/guard, StorageResolver::resolve_flags/never_a_reference
+    fn resolve(&self, r: PlainRef) -> (res: Result<Primitive>)
+        ensures res == self.store().get(r), res matches Ok(p) ==> !(p is Reference);
 }
 pub trait Updater: Sized {
     spec fn created(&self) -> Map<PlainRef, Primitive>;
